@@ -70,7 +70,12 @@ structure ModSrc where
   nodes : List Bytes := []            -- top-level data nodes of the compiled module, in order (main module, then submodules)
   augTargets : List (Bytes × Bytes) := []   -- per `augment` statement: (import name, top-level node of that module it descends into)
   devTargets : List (Bytes × Bytes) := []   -- per `deviation` statement, likewise
+  regRev : Option Bytes := none       -- the revision the import callback / the caller believes this text to have, when it is not
+                                      -- the revision the text declares (`rev`): `lysp_load_module_check` refuses the module
 deriving DecidableEq, Repr, Inhabited
+
+/-- the revision under which the source is served -/
+def ModSrc.repoRev (m : ModSrc) : Bytes := m.regRev.getD m.rev
 
 def ModSrc.fault (m : ModSrc) (st : Stage) : Option Nat := (m.faults.find? (fun f => f.1 == st)).map (·.2)
 
@@ -243,11 +248,11 @@ def tick (n : Nat) (s : Ctx) : Ctx := { s with changeCount := s.changeCount + Bi
 /-- the import callback of the harness: the exact revision, or the newest one of that name -/
 def repoFind (repo : List ModSrc) (name : Bytes) (rev : Option Bytes) : Option ModSrc :=
   match rev with
-  | some r => repo.find? (fun m => m.name == name && m.rev == r && !r.isEmpty)
+  | some r => repo.find? (fun m => m.name == name && m.repoRev == r && !r.isEmpty)
   | none => (repo.filter (fun m => m.name == name)).foldl
       (fun best m => match best with
         | none => some m
-        | some b => if bytesLt b.rev m.rev then some m else some b) none
+        | some b => if bytesLt b.repoRev m.repoRev then some m else some b) none
 
 /-! ## features (`schema_features.c`) -/
 
